@@ -22,6 +22,8 @@ B2N(b) == IF b THEN 1 ELSE 0
 
 RowOk(a) ==
   /\ Report(~M.lt[a][a], <<"BAD", "irreflexive", Code(a), 0, 0>>)
+  \* an object that took part in comparisons and sorts hashes like a fresh equal one and is found in sets of fresh ones
+  /\ Report(M.hash_stable[a], <<"BAD", "hash-depends-on-object-history", Code(a), 0, 0>>)
   /\ \A b \in Idx :
        /\ Report(B2N(M.lt[a][b]) + B2N(M.eq[a][b]) + B2N(M.lt[b][a]) = 1,
                  <<"BAD", "trichotomy", Code(a), Code(b), 0>>)
